@@ -5,6 +5,7 @@ import (
 	"crypto/rand"
 	"crypto/rsa"
 	"fmt"
+	"strings"
 
 	"github.com/fido-device-onboard/go-fdo/cbor"
 	"github.com/fido-device-onboard/go-fdo/cose"
@@ -141,6 +142,9 @@ func (e *Exec) forgeEAT(s *slot, atom string, body []byte) ([]byte, error) {
 	dev := s.dev
 	other := e.otherDev(s.devName)
 	pss := dev.Kind.PSS()
+	if strings.HasPrefix(atom, "ueid_") && atom != "ueid_other" && atom != "ueid_other_key_other" && len(e.guidOf(s.devName)) == 0 {
+		return nil, fmt.Errorf("GUID of %s unknown", s.devName)
+	}
 	switch atom {
 	case "resign_stranger":
 		return Resign(body, e.Stranger.Key, pss, nil)
@@ -160,6 +164,29 @@ func (e *Exec) forgeEAT(s *slot, atom string, body []byte) ([]byte, error) {
 		return Resign(body, other.Key, pss, func(p *cb.Node) {
 			g := e.guidOf(map[string]string{"dA": "dB", "dB": "dA"}[s.devName])
 			p.MapSet(256, cb.Bstr(append([]byte{1}, g...)))
+		})
+	case "ueid_prefix":
+		// the right identity, cut short: type byte followed by a proper prefix of the GUID (possibly empty)
+		return Resign(body, dev.Key, pss, func(p *cb.Node) {
+			g := e.guidOf(s.devName)
+			p.MapSet(256, cb.Bstr(append([]byte{1}, g[:e.rng.Intn(len(g))]...)))
+		})
+	case "ueid_longer":
+		return Resign(body, dev.Key, pss, func(p *cb.Node) {
+			g := e.guidOf(s.devName)
+			p.MapSet(256, cb.Bstr(append(append([]byte{1}, g...), byte(e.rng.Intn(256)))))
+		})
+	case "ueid_type":
+		return Resign(body, dev.Key, pss, func(p *cb.Node) {
+			g := e.guidOf(s.devName)
+			p.MapSet(256, cb.Bstr(append([]byte{byte(2 + e.rng.Intn(250))}, g...)))
+		})
+	case "nonce_prefix":
+		return Resign(body, dev.Key, pss, func(p *cb.Node) {
+			nn := p.MapGet(10)
+			if nn != nil && len(nn.Bytes) > 1 {
+				nn.Bytes = append([]byte(nil), nn.Bytes[:e.rng.Intn(len(nn.Bytes))]...)
+			}
 		})
 	case "no_nonce":
 		return Resign(body, dev.Key, pss, func(p *cb.Node) { p.MapDel(10) })
